@@ -96,7 +96,7 @@ func runC06(c *Ctx) {
 	root := NewRng(c.Seed).Fork(6)
 	parallel(nWS, 14, func(i int) {
 		r := root.Fork(uint64(i))
-		sw := GenScopeWS(r, ScopeCfg{JoinPct: -1, GluePct: -1})
+		sw := GenScopeWS(r, ScopeCfg{JoinPct: -1, GluePct: -1, Zoo: r.Fork(0x7a6f6f).Chance(1, 4)})
 		if r.Fork(0x66696c65).Chance(1, 5) {
 			sw.AddFileNamedLikeAGlobal(r.Fork(0x66696c66))
 			c.Count("workspaces_with_a_file_named_like_a_global", 1)
